@@ -21,5 +21,8 @@ for c in "$@"; do
   $vv/run.sh $c $tier > $vv/out-$c.log 2>&1; rc=$?
   egrep "^VIOLATION|^KNOWN|^OK|HARNESS|^  [a-z]|^panic|^goroutine 1|UNCONFIRMED|CONFORMANCE" $vv/out-$c.log | cut -c1-600 | head -14; [ $rc -ge 2 ] && tail -15 $vv/out-$c.log | cut -c1-300
   echo "    rc=$rc wall=$(( $(date +%s)-s ))s"
+  # keep a record next to the seeded change: which state of /verif, which check, verdict, first reported discrepancy
+  what=$(grep -A2 -m1 "^VIOLATION" $vv/out-$c.log | sed -n 3p | cut -c1-220)
+  [ -d /verif/seeded/$id ] && echo "$(git -C /verif rev-parse --short HEAD)$(git -C /verif diff --quiet || echo +dirty) $c $tier rc=$rc $what" >> /verif/seeded/$id/tries.log
 done
 git -C /repo worktree remove --force $wt; rm -rf $vv
